@@ -473,8 +473,8 @@ def check_plan(case, plan):
         if pos[u] > pos[v]:
             out.append(O.V('C14', 'not_topological', f"task list has {v} before its predecessor {u}"))
             break
-    # predecessor / successor queries agree with the graph
-    for g, t in by_gid.items():
+    # predecessor / successor queries agree with the graph - every time they are asked (two rounds)
+    for g, t in list(by_gid.items()) * 2:
         try:
             preds = {p.graph_id for p in plan.get_task_predecessors(t)}
             succs = {s.graph_id for s in plan.get_task_successors(t)}
@@ -807,9 +807,14 @@ def physical_config(f, vals):
     return inst, cluster, buffer
 
 
-def parse_all(unit, inst, cluster, buffer):
+def parse_all(unit, inst, cluster, buffer, twice=False):
     cfg = make_config(unit, cluster=json.loads(json.dumps(cluster)), buffer=json.loads(json.dumps(buffer)),
                       instrument=json.loads(json.dumps(inst)))
+    if twice:
+        # parsing is a query: asking the same Config object again must give the same answer (the first answers are dropped)
+        cfg.parse_cluster_config()
+        cfg.parse_instrument_config('telescope')
+        cfg.parse_buffer_config()
     machines, sysbw = cfg.parse_cluster_config()
     arrays, pipelines, obs, max_ingest = cfg.parse_instrument_config('telescope')
     hot, cold = cfg.parse_buffer_config()
@@ -830,6 +835,7 @@ def c16_violations(unit, vals):
     try:
         S = parse_all('seconds', inst, cluster, buffer)
         U = parse_all(unit, inst, cluster, buffer)
+        U2 = parse_all(unit, inst, cluster, buffer, twice=True)
     except Exception as e:
         from .trace import harness_frame_innermost, repo_frame
         if harness_frame_innermost(e):
@@ -838,6 +844,9 @@ def c16_violations(unit, vals):
 
     def bad(part, msg):
         out.append(O.V('C16', part, f"unit {unit!r} (factor {f}): {msg}"))
+    if U2 != U:
+        diff = [k for k in U if U[k] != U2[k]]
+        bad('second_parse_differs', f"parsing the same Config object a second time changes {diff}: {[(U[k], U2[k]) for k in diff][:2]}")
     for (n1, st1, d1, dem1, r1), (n2, st2, d2, dem2, r2) in zip(S['obs'], U['obs']):
         if st2 * f != st1:
             bad('start', f"{n1}: start {st2} x {f} != {st1}")
@@ -1175,7 +1184,7 @@ class TierModel:
     def _stream_in(self, size):
         left = size
         while left > 0:      # stream it in at no more than the hot tier's ingest rate
-            chunk = min(left, int(self.hot.max_ingest_data_rate))
+            chunk = min(left, self.hot.max_ingest_data_rate)
             self.hot.process_incoming_data_stream(chunk, self.env.now)
             left -= chunk
         self.data += size
@@ -1295,7 +1304,10 @@ def tier_history_strategy():
     op = st.one_of(st.tuples(st.just('store'), st.integers(1, 40)), st.just(('h2c',)), st.just(('c2h',)),
                    st.tuples(st.just('deposit'), st.integers(1, 12)), st.just(('schedule',)), st.just(('finish',)),
                    st.tuples(st.just('step'), st.integers(1, 6)), st.tuples(st.just('step'), st.integers(1, 6))).map(list)
-    free = st.tuples(st.integers(5, 100), st.integers(5, 100), st.integers(1, 12), st.integers(1, 12),
+    # rates: whole numbers and dyadic fractions (exact in binary, so every comparison below stays exact); buffer rates are not
+    # rounded by the parser and the repository's own configurations use fractional ones
+    rate = st.one_of(st.integers(1, 12), st.integers(1, 12), st.sampled_from([0.5, 1.5, 2.5, 0.25, 3.75]))
+    free = st.tuples(st.integers(5, 100), st.integers(5, 100), rate, rate,
                      st.lists(op, min_size=2, max_size=30)).map(list)
 
     def busy(t):
@@ -1305,7 +1317,7 @@ def tier_history_strategy():
         cold_cap = s2 + min(slack, s1)
         return [s1 + s2 + 5, cold_cap, hr, cr,
                 [['store', s1], ['store', s2], ['h2c'], ['step', k], ['h2c'], ['step', 1], ['h2c']] + tail]
-    directed = st.tuples(st.integers(2, 30), st.integers(2, 40), st.integers(0, 30), st.integers(1, 12), st.integers(1, 12),
+    directed = st.tuples(st.integers(2, 30), st.integers(2, 40), st.integers(0, 30), rate, rate,
                          st.integers(1, 4), st.lists(op, max_size=8)).map(busy)
 
     def overlap(t):
@@ -1314,7 +1326,7 @@ def tier_history_strategy():
         s1, s2, s3, hr, cr, k, shape, tail = t
         r = min(hr, cr)
         cap = 4 * (s1 + s2 + s3) + 10
-        ops = [['store', s1], ['h2c'], ['step', -(-s1 // r) + 1], ['store', s2]]
+        ops = [['store', s1], ['h2c'], ['step', math.ceil(s1 / r) + 1], ['store', s2]]
         if shape == 0:
             ops += [['c2h'], ['step', k], ['h2c']]
         elif shape == 1:
@@ -1324,7 +1336,7 @@ def tier_history_strategy():
         else:
             ops += [['store', s3], ['h2c'], ['step', k], ['h2c']]
         return [cap, cap, hr, cr, ops + [['step', 2]] + tail]
-    overlapping = st.tuples(st.integers(2, 30), st.integers(2, 30), st.integers(2, 30), st.integers(1, 12), st.integers(1, 12),
+    overlapping = st.tuples(st.integers(2, 30), st.integers(2, 30), st.integers(2, 30), rate, rate,
                             st.integers(1, 3), st.integers(0, 3), st.lists(op, max_size=8)).map(overlap)
     return st.one_of(free, free, free, directed, overlapping)
 
